@@ -36,6 +36,10 @@ type TaskDAO interface {
 	// It is not an error to delete an non-existent task.
 	Delete(id string) error
 
+	// SetError records the last error of a task, leaving the rest of its definition as it is stored.
+	// ErrNoTaskExists is returned if the task does not exist.
+	SetError(id string, errStr string) error
+
 	// List tasks matching a pattern.
 	// The pattern is shell/glob matching see https://golang.org/pkg/path/#Match
 	// Offset and limit are pagination bounds. Offset is inclusive starting at index 0.
@@ -230,6 +234,23 @@ func (kv *taskKV) Replace(t Task) error {
 
 func (kv *taskKV) Delete(id string) error {
 	return kv.store.Delete(id)
+}
+
+// SetError reads and writes the task in one transaction: it runs beside the API handlers
+// (when a running task fails) and must not write back a definition that has been replaced meanwhile.
+func (kv *taskKV) SetError(id string, errStr string) error {
+	return kv.store.Store().Update(func(tx storage.Tx) error {
+		o, err := kv.store.GetTx(tx, id)
+		if err != nil {
+			return kv.error(err)
+		}
+		t, ok := o.(*Task)
+		if !ok {
+			return fmt.Errorf("impossible error, object not a Task, got %T", o)
+		}
+		t.Error = errStr
+		return kv.error(kv.store.ReplaceTx(tx, t))
+	})
 }
 
 func (kv *taskKV) List(pattern string, offset, limit int) ([]Task, error) {
